@@ -351,6 +351,15 @@ package ctfe
 //@ ensures [storage-error-gives-no-hash] sa.called && sa.res != nil ==> result1 != nil && result0 == nil
 //@ at h assert [hashes-the-chain] h.chain == chain
 //@ at sa assert [stores-chain-under-its-hash] sa.arg1 == h.res && sa.arg2 == chain
+//@ site add$1#1 as gs
+//@ at gs assert [caches-chain-under-its-hash] gs.hash == h.res && gs.chain == chain
+
+//@ func (*indirectIssuanceChainService).add$1
+//@ props C14
+//@ pure
+//@ site Set#1 as cs
+//@ requires s != nil && s.cache != nil
+//@ at cs assert [cache-entry-is-the-pair-handed-over] cs.arg1 == hash && cs.arg2 == chain
 
 //@ func (*indirectIssuanceChainService).getByHash
 //@ props C14
@@ -362,6 +371,15 @@ package ctfe
 //@ ensures [else-storage-answer] cg.res0 == nil && cg.res1 == nil ==> sf.called && ((sf.res1 != nil && result0 == nil && result1 == sf.res1) || (sf.res1 == nil && result0 == sf.res0 && result1 == nil))
 //@ at cg assert [looks-up-the-hash] cg.arg1 == hash
 //@ at sf assert [looks-up-the-hash] sf.arg1 == hash
+//@ site getByHash$1#1 as gs
+//@ at gs assert [caches-the-storage-answer-under-the-hash-asked-for] gs.hash == hash && gs.chain == sf.res0
+
+//@ func (*indirectIssuanceChainService).getByHash$1
+//@ props C14
+//@ pure
+//@ site Set#1 as cs
+//@ requires s != nil && s.cache != nil
+//@ at cs assert [cache-entry-is-the-pair-handed-over] cs.arg1 == hash && cs.arg2 == chain
 
 //@ func (*indirectIssuanceChainService).BuildLogLeaf
 //@ props C14
